@@ -115,10 +115,18 @@ WithMarkers(ts, tr) ==
   [q \in 1..Len(ts) |-> [typ |-> ts[q].typ,
                          val |-> IF q = 1 /\ tr \in {1, 3} THEN ts[q].val \o <<45>>
                                  ELSE IF q = Len(ts) /\ tr \in {2, 3} THEN <<45>> \o ts[q].val ELSE ts[q].val]]
+AllAtOnce(n, ts) ==
+  { [q \in 1..(Len(ts) - 1) |-> IF q \in Vary(ts) /\ CanAbut(ts[q], ts[q + 1]) THEN <<>> ELSE CanonSep(n, q)],
+    [q \in 1..(Len(ts) - 1) |-> IF q \in Vary(ts) THEN <<10>> ELSE CanonSep(n, q)],
+    [q \in 1..(Len(ts) - 1) |-> IF q \in Vary(ts) THEN <<9>> ELSE CanonSep(n, q)],
+    [q \in 1..(Len(ts) - 1) |-> IF q \in Vary(ts) THEN <<13, 10>> ELSE CanonSep(n, q)] }
 Init == v_lvl = 0 /\ v_idx = <<0, <<>>, 0>>
 Next == \/ v_lvl = 0 /\ v_lvl' = 1 /\ \E n \in 1..Len(Snips) : v_idx' = <<n, <<>>, 0>>
         \/ v_lvl = 1 /\ v_lvl' = 2 /\ \E sv \in SepVectors(v_idx[1], Canon(v_idx[1])) : v_idx' = <<v_idx[1], sv, 0>>
         \/ v_lvl = 1 /\ v_lvl' = 2 /\ \E sv \in SepVectors1(v_idx[1], Canon(v_idx[1])), tr \in 1..3 : v_idx' = <<v_idx[1], sv, tr>>
+        (* the tightest spelling (nothing wherever two tokens may abut: for many snippets no white space is left at all) and
+           the loosest ones (a line break / a tab at every boundary) *)
+        \/ v_lvl = 1 /\ v_lvl' = 2 /\ \E sv \in AllAtOnce(v_idx[1], Canon(v_idx[1])) : v_idx' = <<v_idx[1], sv, 0>>
 
 Spelled == Spell(WithMarkers(Canon(v_idx[1]), v_idx[3]), v_idx[2])
 SpellingInvariant == v_lvl = 2 => NonSpace(Tokens(Spelled)) = Canon(v_idx[1])
